@@ -708,7 +708,7 @@ def history_cases(r, nrandom):
     out = []
     b = history_base()
     for action in ("write", "summary", "str", "xml"):
-        for what in EDITS:
+        for what in (EDITS if action != "xml" else EDITS[:2]):
             out.append(("%s-then-edit-%s" % (action, what), b, edited(b, what), action))
     for i in range(nrandom):
         spec, expect = gen_doc(r, 200000 + i)
@@ -736,6 +736,27 @@ def history_cases(r, nrandom):
                 c["target"] = cellref(r, pops[il["population"]], r.randrange(sizes[il["population"]]))
         out.append(("random-%d" % i, spec, s2, r.choice(["write", "summary", "str"])))
     return out
+
+
+# ------------------------------------------------------------------------------------------------- scale
+def big_population_case(n=2500):
+    """ONE document with an instance-based population of 2500 placed cells (ids 0..n-1, all locations different), a projection and
+    an input list whose end points use cells beyond 1024 / 2048 (block sizes of table readers)"""
+    s = base_spec()
+    net = s["networks"][0]
+    net["populations"][1]["instances"] = [[i, i * 0.5, (i % 50) * 0.25, (i // 50) * 2.0 - 7.0] for i in range(n)]
+    net["projections"].append({"id": "big", "pre": "pA", "post": "pB", "synapse": "syn1", "conns": [
+        {"v": "C", "id": k, "pre": "../pA[%d]" % (k % 5), "post": "../pB/%d/iaf" % c, "post_segment_id": 1, "post_fraction_along": 0.25}
+        for k, c in enumerate((0, 1023, 1024, 1025, 2047, 2048, n - 1))]})
+    net["input_lists"].append({"id": "bigil", "component": "pg", "population": "pB", "inputs": [
+        {"v": "I", "id": k, "target": "../pB/%d/iaf" % c, "segment_id": 0, "fraction_along": 0.5} for k, c in enumerate((1500, 1024, n - 1))]})
+    return s
+
+
+def canon_result(r):
+    """what of a run must not depend on the interpreter's configuration: refused or not (and with which exception class), the
+    verdict, the loaded document"""
+    return {"stage": r["stage"], "error": (r["error"] or "").split(":")[0], "ok": r["verdict"].get("ok"), "after": r.get("after")}
 
 
 def population_class_cases():
@@ -1120,7 +1141,8 @@ def run(ck):
 
     # ---- stored witnesses first (every run)
     sw = stored_witnesses()
-    res = ck.impl("c05_impl.py", {"cases": [{"spec": s, "modes": ["plain"], "expect": e} for _, _, s, e in sw]}, timeout=900)["results"]
+    res = ck.impl("c05_impl.py", {"cases": [{"spec": s, "modes": ["plain"], "expect": e, "want_after": True} for _, _, s, e in sw]}, timeout=900)["results"]
+    ref_sw = res
     for (key, what, spec, expect), r in zip(sw, res):
         r = r["plain"]
         ck.count(1, nontrivial_key="stored:" + key + what[:20])
@@ -1134,7 +1156,9 @@ def run(ck):
 
     # ---- every run: one field off its default at a time, for every kind / variant / field
     sf = single_field_cases()
-    res = ck.impl("c05_impl.py", {"cases": [{"spec": s, "modes": ["plain"], "expect": "same"} for _, s in sf]}, timeout=900)["results"]
+    res = ck.impl("c05_impl.py", {"cases": [{"spec": s, "modes": ["plain"], "expect": "same", "want_after": i < 10} for i, (_, s) in enumerate(sf)]},
+                  timeout=900)["results"]
+    ref_sf = res[:10]
     for (label, spec), r in zip(sf, res):
         r = r["plain"]
         ck.count(1, nontrivial_key="single:" + label)
@@ -1144,7 +1168,8 @@ def run(ck):
 
     # ---- every run (negative clause): mixed synapses / components in every connection list at every position must be refused
     mx = mixed_synapse_cases()
-    res = ck.impl("c05_impl.py", {"cases": [{"spec": s, "modes": ["plain"], "expect": "refuse"} for _, s in mx]}, timeout=900)["results"]
+    res = ck.impl("c05_impl.py", {"cases": [{"spec": s, "modes": ["plain"], "expect": "refuse", "want_after": True} for _, s in mx]}, timeout=900)["results"]
+    ref_mx = res
     for (label, spec), rr in zip(mx, res):
         r = rr["plain"]
         ck.count(1, nontrivial_key="mixed:" + label)
@@ -1152,6 +1177,43 @@ def run(ck):
         if not r["verdict"]["ok"]:
             report_all(ck, "connections with different synapses / components in one projection (%s)" % label, spec, r, expect="refuse",
                        reason="mixed-" + ":".join(label.split(":")[:2]))
+
+    # ---- every run (scale): 2500 placed cells, standard and optimized loader (judged by the predicate only: ids, locations and the
+    #      end points beyond 1024; not part of the Coq case files, whose literals would be too large)
+    bigspec = big_population_case()
+    rr = ck.impl("c05_impl.py", {"cases": [{"spec": bigspec, "modes": ["plain", "optimized"], "expect": "same"}]}, timeout=900)["results"][0]
+    ck.count(1, nontrivial_key="scale:2500-instances")
+    ck.tally("scale_2500_instances")
+    ck.extra["scale_case"] = "one document with 2500 instances (predicate only, not in the Coq correspondence literals)"
+    for mode, r in rr.items():
+        if not r["verdict"]["ok"]:
+            report_all(ck, "population of 2500 placed cells (%s loader)" % mode, {"generator": "checks/c05.py:big_population_case(2500)"}, r,
+                       mode=mode, prefix="C05:scale:" if mode == "plain" else "C05:optimized:scale:")
+
+    # ---- every run (environment): the interpreter's configuration is not input.  All refusal cases and the first deterministic
+    #      documents again under `python -O` (asserts stripped) and with another hash seed from another working directory: refused /
+    #      round-tripped exactly as in the default run
+    cfg = [{"spec": s, "modes": ["plain"], "expect": "refuse", "want_after": True} for _, s in mx]
+    cfg += [{"spec": s, "modes": ["plain"], "expect": e, "want_after": True} for _, _, s, e in sw]
+    cfg += [{"spec": s, "modes": ["plain"], "expect": "same", "want_after": True} for _, s in sf[:10]]
+    ref = ref_mx + ref_sw + ref_sf          # the default-configuration results of the same cases (runs above)
+    for which, kw in (("python-O", {"pyflags": ["-O"]}), ("hashseed3-cwd-root", {"extra_env": {"PYTHONHASHSEED": "3"}, "cwd": "/"})):
+        try:
+            other = ck.impl("c05_impl.py", {"cases": cfg}, timeout=900, **kw)["results"]
+        except Exception as e:  # noqa: BLE001
+            ck.oblige("impl:c05_impl.py[%s]" % which, False, str(e)[-1500:], kind="correspondence")
+            continue
+        for case, a, b in zip(cfg, ref, other):
+            ck.count(1)
+            ck.tally("interpreter_configuration:" + which)
+            ca, cb_ = canon_result(a["plain"]), canon_result(b["plain"])
+            if ca != cb_:
+                d = [k for k in ("stage", "error", "ok", "after") if ca[k] != cb_[k]]
+                ck.witness("C05:interpreter-configuration:%s" % which,
+                           "the same document is treated differently under %s (%s differs: default %s/%s, there %s/%s)"
+                           % (which, d[0], ca["stage"], ca["error"], cb_["stage"], cb_["error"]),
+                           input={"spec": case["spec"], "mode": "plain", "expect": case["expect"], "configuration": which},
+                           expected={"stage": ca["stage"], "error": ca["error"]}, observed={"stage": cb_["stage"], "error": cb_["error"]})
 
     # ---- every run (frame clause): use the document once, edit it in place, write again: the EDITED document must come back
     hc = history_cases(ck.rng, ck.n(8, 150))
@@ -1204,7 +1266,7 @@ def run(ck):
         correspondence(ck, t, ck.n(150, 1200))
 
     # ---- generated documents over the full quantifier
-    n = ck.n(150, 3000)
+    n = ck.n(120, 3000)
     specs = [gen_doc(ck.rng, i) for i in range(n)]
     nopt = ck.n(40, 300)
     B = 150
